@@ -18,6 +18,10 @@ def run(chk):
         for root in g.nodes():
             cases.append({"V": list(g.nodes()), "E": [list(e) for e in g.edges()], "root": root, "name": "atlas%d" % len(cases)})
     chk.exhaustive["every connected graph on <= 5 vertices x every focal vertex (%d pairs), fresh evaluator" % len(cases)] = True
+    for g in P.connected_atlas(6, max_edges=9):           # every connected 6-vertex graph with <= 9 edges, every focal vertex
+        if g.number_of_nodes() == 6:
+            for root in g.nodes():
+                cases.append({"V": list(g.nodes()), "E": [list(e) for e in g.edges()], "root": root, "name": "atlas%d" % len(cases)})
     if thorough:
         for g in P.connected_atlas(6, max_edges=11):
             for root in list(g.nodes())[:3]:
@@ -28,8 +32,10 @@ def run(chk):
     for n in (6, 7, 8, 9) if thorough else (6, 7):
         cases.append({"V": [10 + i for i in range(n)], "E": [[10 + i, 10 + (i + 1) % n] for i in range(n)], "root": 10 + n // 2, "name": "cyc%d" % n})
     cases.append({"V": [3, 5, 8, 13, 21], "E": [list(e) for e in itertools.combinations([3, 5, 8, 13, 21], 2)], "root": 8, "name": "k5-relabelled"})
-    for c in cases:
-        traces.append(P.run_auto(c))
+    for i, c in enumerate(cases):
+        # a fresh evaluator per case; every second case reuses the SAME motif name on its own evaluator (names only have
+        # to be distinct on one evaluator: two evaluators - e.g. two message-passing objects - may both call a motif "0-7")
+        traces.append(P.run_auto(dict(c, name="0-7") if i % 2 else c))
     # history: ONE evaluator, distinctly named motifs, interleaved (motif, root) queries, numeric calls with other phi / u in between
     nh = 60 if thorough else 20
     for h in range(nh):
